@@ -51,6 +51,7 @@ type funcInfo struct {
 	closes       []string          // channel-typed fields closed with close(...)
 	acquires     map[string][2]int // lock -> number of Lock() / RLock() call sites in the function body
 	chanAccesses []access          // accesses to channel-typed fields (not part of the race table)
+	shadows      []string          // locals declared at the top of the body that a nested `:=` declares again
 }
 
 // struct type of well-known receiver / variable names per package directory
@@ -195,6 +196,7 @@ func main() {
 			}
 			w := &walker{fi: fi, env: env}
 			w.block(fd.Body.List, nil)
+			fi.shadows = shadowedLocals(fd)
 		}
 	}
 	emit(out)
@@ -207,6 +209,51 @@ func (fi *funcInfo) acquire(lock string, mode int) {
 	a := fi.acquires[lock]
 	a[mode]++
 	fi.acquires[lock] = a
+}
+
+// shadowedLocals lists the variables declared by the top-level statements of a function body that a nested short variable
+// declaration declares again (`x := …` inside a branch, loop or closure where `x = …` updates the outer one). `err`, `ok`
+// and `_` are idiomatic and not counted.
+func shadowedLocals(fd *ast.FuncDecl) []string {
+	top := map[string]bool{}
+	topStmts := map[ast.Stmt]bool{}
+	for _, st := range fd.Body.List {
+		topStmts[st] = true
+		switch x := st.(type) {
+		case *ast.AssignStmt:
+			if x.Tok == token.DEFINE {
+				for _, l := range x.Lhs {
+					if id, ok := l.(*ast.Ident); ok {
+						top[id.Name] = true
+					}
+				}
+			}
+		case *ast.DeclStmt:
+			if gd, ok := x.Decl.(*ast.GenDecl); ok {
+				for _, sp := range gd.Specs {
+					if vs, ok := sp.(*ast.ValueSpec); ok {
+						for _, n := range vs.Names {
+							top[n.Name] = true
+						}
+					}
+				}
+			}
+		}
+	}
+	var out []string
+	ast.Inspect(fd.Body, func(n ast.Node) bool {
+		as, ok := n.(*ast.AssignStmt)
+		if !ok || as.Tok != token.DEFINE || topStmts[as] {
+			return true
+		}
+		for _, l := range as.Lhs {
+			if id, ok := l.(*ast.Ident); ok && top[id.Name] && id.Name != "err" && id.Name != "ok" && id.Name != "_" {
+				out = append(out, id.Name)
+			}
+		}
+		return true
+	})
+	return out
 }
 
 func isKnownStruct(t string) bool {
